@@ -108,6 +108,7 @@ def main(argv=None):
     ap.add_argument('--no-write', action='store_true', help='print the verdict but do not write evidence/replay files (used by the self-test)')
     a = ap.parse_args(argv)
     t0 = time.time()
+    os.environ['USA_TIER'] = a.tier
     seed = int(os.environ.get('VERIF_SEED') or 0)
     if a.repo: extract.REPO = a.repo
     load_rules()
